@@ -1057,29 +1057,35 @@ Proof.
   apply result_get. auto.
 Qed.
 
-(* --- the clause "each field readable by key and by attribute" fails for status *)
-Theorem status_unset_refuted :
-  exists k, In k result_keys /\ forall vals,
-    snd (rstep (set_attributes init_result vals) (RGet k)) = RErr "KeyError" /\
-    snd (rstep (set_attributes init_result vals) (RGetAttr k)) = RErr "AttributeError".
+(* --- set_attributes assigns every declared field *)
+Theorem set_attributes_complete : forall k, In k result_keys -> In k set_attributes_keys.
 Proof.
-  exists "status"%string. split; [apply mem_str_In; vm_compute; reflexivity|].
-  intros vals. unfold set_attributes.
-  destruct (set_many set_attributes_keys vals init_result set_attributes_keys_known) as [_ H2].
-  assert (Hn : ~ In "status"%string set_attributes_keys).
-  { intros C. apply mem_str_In in C. vm_compute in C. discriminate. }
-  specialize (H2 _ Hn). cbn [init_result ritems lookup] in H2.
-  cbn [rstep]. rewrite H2. auto.
+  intros k Hin.
+  assert (G : forallb (fun k => mem_str k set_attributes_keys) result_keys = true) by (vm_compute; reflexivity).
+  rewrite forallb_forall in G. apply mem_str_In. apply G. auto.
 Qed.
 
-Theorem status_only_missing : forall k,
-  In k result_keys -> k <> "status"%string -> In k set_attributes_keys.
+(* --- historical refutation (regression witness): with the assignments set_attributes made before
+   commit 39edf28 (no status) the declared field status was unreadable on every result *)
+Definition set_attributes_keys_before_39edf28 : list string :=
+  filter (fun k => negb (String.eqb k "status")) set_attributes_keys.
+
+Theorem status_unset_refuted_before_fix :
+  exists k, In k result_keys /\ forall vals,
+    let r := rrun init_result (map (fun k => RSet k (vals k)) set_attributes_keys_before_39edf28) in
+    snd (rstep r (RGet k)) = RErr "KeyError" /\ snd (rstep r (RGetAttr k)) = RErr "AttributeError".
 Proof.
-  intros k Hin Hne.
-  assert (G : forallb (fun k => String.eqb k "status" || mem_str k set_attributes_keys) result_keys = true)
-    by (vm_compute; reflexivity).
-  rewrite forallb_forall in G. specialize (G k Hin). apply orb_true_iff in G.
-  destruct G as [G|G]; [apply String.eqb_eq in G; contradiction|apply mem_str_In; auto].
+  exists "status"%string. split; [apply mem_str_In; vm_compute; reflexivity|].
+  intros vals.
+  assert (Hk : forall k, In k set_attributes_keys_before_39edf28 -> In k result_keys).
+  { intros k H. apply set_attributes_keys_known. unfold set_attributes_keys_before_39edf28 in H.
+    apply filter_In in H. tauto. }
+  destruct (set_many set_attributes_keys_before_39edf28 vals init_result Hk) as [_ H2].
+  assert (Hn : ~ In "status"%string set_attributes_keys_before_39edf28).
+  { intros C. unfold set_attributes_keys_before_39edf28 in C. apply filter_In in C.
+    destruct C as [_ C]. rewrite String.eqb_refl in C. discriminate. }
+  specialize (H2 _ Hn). cbn [init_result ritems lookup] in H2.
+  cbn zeta. cbn [rstep]. rewrite H2. auto.
 Qed.
 
 (* ------------------------------------------------------------------ examples *)
